@@ -5,7 +5,12 @@ use rand_chacha::ChaCha8Rng;
 use serde_json::{json, Value};
 use text_utils::edit::{distance, distances, operations, prefix_distance, EditOperation};
 
-fn one(a: &str, b: &str, g: bool, swap: bool, sid: bool) -> Value {
+fn one(a0: &str, b0: &str, g: bool, swap: bool, sid: bool) -> Value {
+    // both texts live in buffers that held other texts of the same byte length before (see refill_with)
+    let (mut ba, mut bb) = (String::with_capacity(a0.len() + 8), String::with_capacity(b0.len() + 8));
+    refill_with(&mut ba, a0, |d| { let _ = guard(|| distance(d, d, g, swap, sid, false)); });
+    refill_with(&mut bb, b0, |d| { let _ = guard(|| distance(d, "x", g, swap, sid, false)); });
+    let (a, b) = (ba.as_str(), bb.as_str());
     let mut int = Interner::default();
     let va = view_iw(a, g, &mut int);
     let vb = view_iw(b, g, &mut int);
